@@ -202,8 +202,15 @@ Inductive comp :=
 | CLocal (h : list row -> list row)                            (* row-wise / filter: one chunk per call *)
 | CExhaust (f : list row -> list row)
 | CDown (h : list row -> list row) (cut : Z -> Z -> list row -> pieces)
-| CPair (same_kind : bool) (h : list row -> list row -> list row) (bounds : list Z).
+| CPair (same_kind : bool) (h : list row -> list row -> list row) (bounds : list Z)
    (* bounds: only read by the driver's align_by_bounds; the theorems use an abstract alignment *)
+| COverlap (f : list row -> list row) (wtuple : bool) (wl wr sw : Z).
+   (* OverlapWindowPlugin: user computation, get_window_size as tuple?, window, numeric save_when; its stream
+      semantics is the parameter `ovl` of run_node_x (instantiated with C09's ow_iter in Model/NetworkIter.v) *)
+
+Definition E_NO_OVERLAP : Z := 55.  (* model: an overlap-window node evaluated without an overlap semantics *)
+Definition ovl_t := ometa -> (list row -> list row) -> bool -> Z -> Z -> Z -> stream -> res stream.
+Definition no_ovl : ovl_t := fun _ _ _ _ _ _ _ => Err E_NO_OVERLAP.
 
 Record node := mknode { n_id : Z; n_deps : list Z; n_comp : comp; n_meta : ometa }.
 (* a multi-output plugin is one node per output with the same dependencies: every output is built from the
@@ -215,8 +222,10 @@ Fixpoint lookup {A} (d : Z) (env : list (Z * A)) : option A :=
   | (k, v) :: rest => if k =? d then Some v else lookup d rest
   end.
 
-Definition run_node (align : list Z -> stream -> stream -> res calls2) (env : list (Z * stream)) (n : node) : res stream :=
+Definition run_node_x (ovl : ovl_t) (align : list Z -> stream -> stream -> res calls2) (env : list (Z * stream)) (n : node) : res stream :=
   match n_comp n, n_deps n with
+  | COverlap f wt wl wr sw, [d] =>
+      match lookup d env with Some cs => ovl (n_meta n) f wt wl wr sw cs | None => Err E_NO_INPUT end
   | CSrc, _ => Err E_NOT_GIVEN
   | CLocal h, [d] => match lookup d env with Some cs => run_local (n_meta n) h cs | None => Err E_NO_INPUT end
   | CExhaust f, [d] => match lookup d env with Some cs => run_exhaust (n_meta n) f cs | None => Err E_NO_INPUT end
@@ -229,15 +238,19 @@ Definition run_node (align : list Z -> stream -> stream -> res calls2) (env : li
   | _, _ => Err E_NO_INPUT
   end.
 
+Definition run_node := run_node_x no_ovl.
+
 (* the stream every data type carries: given (source plugin or loader of a stored type) or computed *)
-Fixpoint eval_graph (align : list Z -> stream -> stream -> res calls2) (given : Z -> option stream)
+Fixpoint eval_graph_x (ovl : ovl_t) (align : list Z -> stream -> stream -> res calls2) (given : Z -> option stream)
          (env : list (Z * stream)) (g : list node) : res (list (Z * stream)) :=
   match g with
   | [] => Ok env
   | n :: rest =>
-      do s <- match given (n_id n) with Some cs => Ok cs | None => run_node align env n end;
-      eval_graph align given ((n_id n, s) :: env) rest
+      do s <- match given (n_id n) with Some cs => Ok cs | None => run_node_x ovl align env n end;
+      eval_graph_x ovl align given ((n_id n, s) :: env) rest
   end.
+(* graphs without overlap-window nodes (the extracted driver) *)
+Definition eval_graph := eval_graph_x no_ovl.
 
 (* the oracle: every computation applied once to the whole, unchunked run *)
 Definition whole_node (src : Z -> list row) (env : list (Z * list row)) (n : node) : list row :=
@@ -246,6 +259,7 @@ Definition whole_node (src : Z -> list row) (env : list (Z * list row)) (n : nod
   | CLocal h, [d] => h (match lookup d env with Some R => R | None => [] end)
   | CExhaust f, [d] => f (match lookup d env with Some R => R | None => [] end)
   | CDown h _, [d] => h (match lookup d env with Some R => R | None => [] end)
+  | COverlap f _ _ _ _, [d] => f (match lookup d env with Some R => R | None => [] end)
   | CPair _ h _, [d1; d2] =>
       h (match lookup d1 env with Some R => R | None => [] end) (match lookup d2 env with Some R => R | None => [] end)
   | _, _ => []
